@@ -100,10 +100,11 @@ let parse_file (path : string) : Trace.tev list * stats =
           subs := { Trace.ss_c = conn_of c; Trace.ss_r = rid_of r; Trace.ss_state = nat_of_int (int_of_string state);
                     Trace.ss_direct = nat_of_int (max 0 (int_of_string direct)); Trace.ss_indirect = nat_of_int (max 0 (int_of_string indirect));
                     Trace.ss_isent = nat_of_int (max 0 (int_of_string isent)) } :: !subs
-        | ["SNAPENT"; r; count; mqsub; evict; nsubs; nres] ->
+        | ["SNAPENT"; r; count; mqsub; evict; nsubs; nres; who] ->
           ents := { Trace.se_r = rid_of r; Trace.se_count = z_of_int (int_of_string count); Trace.se_mqsub = (mqsub = "true");
                     Trace.se_evict = (evict = "true"); Trace.se_nsubs = nat_of_int (int_of_string nsubs);
-                    Trace.se_nres = nat_of_int (int_of_string nres) } :: !ents
+                    Trace.se_nres = nat_of_int (int_of_string nres);
+                    Trace.se_who = L.filter_map (fun w -> if S.length w > 1 && (S.get w 0 = 'c' || S.get w 0 = 'h') then Some (conn_of w) else None) (split_on ',' who) } :: !ents
         | "ENDQ" :: _ -> inq := false; st.qs <- st.qs + 1;
           push (Trace.TQ (L.rev !truth, L.rev !subs, L.rev !ents, !qfinal)); truth := []; subs := []; ents := []
         | _ -> ()
